@@ -72,11 +72,14 @@ class C01(core.Check):
         if "internals" not in impl or impl.get("chop_error") or impl.get("unrealisable") or impl.get("extreme"):
             return []
         # (the last request is always the schedule: neighbours and coincident wires built from the vertex indexes)
-        reqs = [pc.model_request(impl["internals"], impl["chops"])]
+        # c01.run: M-PROP on the schedule read from the implementation, expansions supplied by the harness;
+        # c04.run: M-PROP with the chop calculator inside — counts, expansions and schedule computed by the model
+        reqs = [pc.model_request(impl["internals"], impl["chops"]), pc.geo_request(impl["internals"], impl["chops"])]
         m3 = (impl.get("third") or {}).get("model")
         if m3:
             # the write after the late chops against a fresh model run on all chops placed so far (M-HIST)
             reqs.append(pc.model_request(m3["internals"], m3["chops"]))
+            reqs.append(pc.geo_request(m3["internals"], m3["chops"]))
         reqs.append(pc.sched_request(impl["internals"]))
         return reqs
 
@@ -85,9 +88,13 @@ class C01(core.Check):
         if why:
             return why
         why = pc.compare_with_model(impl, model[0], level=self.compare_level)
+        if why is None:
+            why = pc.compare_geo(impl, model[1], level=self.compare_level)
         m3 = (impl.get("third") or {}).get("model")
-        if why is None and m3 and len(model) > 2:
-            why = pc.compare_with_model(m3, model[1], level=self.compare_level)
+        if why is None and m3 and len(model) > 4:
+            why = pc.compare_with_model(m3, model[2], level=self.compare_level) or pc.compare_geo(
+                m3, model[3], level=self.compare_level
+            )
             if why:
                 why = "write after late chops (session of M-HIST): " + why
         return why
